@@ -18,7 +18,10 @@ RULE = (
     "branch orders, Sholl counts at radii outside the ambiguity band of both twins and on the integer step grid, "
     "L-Measure bifurcation amplitudes / tilts / partition asymmetry / path and Euclidean distances, and "
     "get_volume(accuracy=3) agree; under scaling lengths x s, volume x s^3, counts / angles / tortuosities / "
-    "Sholl-by-steps unchanged. Non-trivial: >= 5 nodes, a furcation, |sin(angle/2)| > 0.05 and non-zero offset "
+    "Sholl-by-steps unchanged. Volume at the default accuracy (Monte-Carlo cone / cone terms, ~0.7 s each) is compared on "
+    "a dedicated family: a stem node with three or four thick daughters, two of them nearly parallel so that their cones "
+    "overlap, under a root-first renumbering that changes sibling order and / or a rigid motion (tolerance 0.5 %, the "
+    "Monte-Carlo noise being ~0.03 %). Non-trivial: >= 5 nodes, a furcation, |sin(angle/2)| > 0.05 and non-zero offset "
     "(rigid) / a permutation that moves >= 3 nodes / s outside [0.9, 1.1]."
 )
 ASSUMPTIONS = [
@@ -221,7 +224,94 @@ def run_case(case, ctx):
             ctx.check(abs(len(ga) - len(gb)) <= 1, f"{kind}/sholl-by-steps/grid-length", f"{len(ga)} vs {len(gb)}")
 
 
+# ----------------------------------------------------------------------------- volume at the default (Monte-Carlo) level
+DIRS = [(1, 0, 0), (1, 0.16, 0), (1, -0.16, 0), (1, 0, 0.2), (0, 0, 1), (0, 1, 0), (0.2, 1, 0), (-0.5, 0.5, 1), (0, -1, 0.2)]
+
+
+@st.composite
+def volume_mc_strategy(draw, tier):
+    """A soma, a stem and one node with three or four thick daughters, two or more of which leave in almost the same
+    direction: their cones overlap beyond the node's sphere, which only the default accuracy level (>= 5) accounts
+    for, pair by pair.  Twin: the same neuron with another root-first numbering (sibling order changes) and / or
+    rigidly moved."""
+    k = draw(st.integers(3, 4))
+    dirs = list(draw(st.permutations(DIRS)))[:k]
+    if draw(st.integers(0, 3)) > 0:  # make sure two near-parallel daughters are present, in any position
+        pair = draw(st.sampled_from([[(1, 0.16, 0), (1, -0.16, 0)], [(1, 0, 0), (1, 0, 0.2)], [(0, 1, 0), (0.2, 1, 0)]]))
+        pos = draw(st.permutations(list(range(k))))
+        dirs[pos[0]], dirs[pos[1]] = pair[0], pair[1]
+    dirs = [list(d) for d in dirs]
+    for a in range(k):  # distinct directions (constructed)
+        while any(dirs[a] == dirs[b] for b in range(a)):
+            dirs[a] = [dirs[a][0], dirs[a][1], dirs[a][2] + 0.5]
+    L = draw(st.sampled_from([4.0, 5.0, 6.0]))
+    rad = lambda: draw(st.sampled_from([0.75, 1.0, 1.25]))  # noqa
+    nodes = [[0.0, 0.0, 0.0, 1.5, -1], [-5.0, 0.0, 0.0, rad(), 0]]
+    for d in dirs:
+        v = np.asarray(d, dtype=np.float64)
+        v = v / np.linalg.norm(v) * L
+        nodes.append([-5.0 + v[0], v[1], v[2], rad(), 1])
+        if draw(st.booleans()):
+            nodes.append([-5.0 + 1.8 * v[0], 1.8 * v[1] + 1.0, 1.8 * v[2], 0.75, len(nodes) - 1])
+    n = len(nodes)
+    case = {"nodes": nodes, "perm": list(draw(st.permutations(list(range(1, n))))),
+            "move": draw(st.booleans())}
+    if case["move"]:
+        case["axis"] = [draw(st.integers(-4, 4)) for _ in range(3)]
+        if not any(case["axis"]):
+            case["axis"] = [0, 0, 1]
+        case["theta"] = draw(st.floats(min_value=-3.0, max_value=3.0, allow_nan=False))
+        case["offset"] = [draw(st.integers(-80, 80)) / 8.0 for _ in range(3)]
+    return case
+
+
+def _tree_from_rows(rows):
+    from swcgeom.core import Tree
+
+    a = np.asarray(rows, dtype=np.float64)
+    n = len(a)
+    return Tree(n, id=np.arange(n, dtype=np.int32), pid=a[:, 4].astype(np.int32), type=np.array([1] + [3] * (n - 1), dtype=np.int32),
+                x=a[:, 0].astype(np.float32), y=a[:, 1].astype(np.float32), z=a[:, 2].astype(np.float32), r=a[:, 3].astype(np.float32))
+
+
+def run_volume_mc(case, ctx):
+    from swcgeom.analysis import extract_feature, get_volume
+
+    rows = case["nodes"]
+    n = len(rows)
+    parents = [int(r[4]) for r in rows]
+    new_parents, new = gen_tree.permute_keep_root(parents, case["perm"])
+    P = np.asarray([r[:3] for r in rows], dtype=np.float64)
+    if case["move"]:
+        P = P @ models.rodrigues(case["axis"], case["theta"]).T + np.asarray(case["offset"], dtype=np.float64)
+    twin = [None] * n
+    for i in range(n):
+        twin[new[i]] = [P[i][0], P[i][1], P[i][2], rows[i][3], new_parents[new[i]]]
+    ch = models.children(parents)
+    order_a = [i for i in ch[1]]
+    order_b = sorted(ch[1], key=lambda i: new[i])
+    reordered = order_a != order_b
+    ctx.cls("siblings-reordered" if reordered else "sibling-order-kept", "moved" if case["move"] else "in-place",
+            f"daughters:{len(ch[1])}")
+    ctx.nontrivial(reordered)
+    t1, t2 = _tree_from_rows(rows), _tree_from_rows(twin)
+    v_low = float(ctx.lib("get_volume[accuracy=3]", get_volume, t1, accuracy=3))
+    v1 = float(ctx.lib("get_volume[default]", get_volume, t1))
+    v2 = float(ctx.lib("twin/get_volume[default]", get_volume, t2))
+    if v_low - v1 > 0.01 * v1:
+        ctx.cls("daughter-cones-overlap>1%")
+    tol = 0.005 * max(v1, v2)  # Monte-Carlo noise of the default level is ~3e-4 relative (1e6 samples per pair)
+    ctx.check(abs(v1 - v2) <= tol, "volume/default-level-unchanged-by-renumbering-and-motion",
+              lambda: f"{v1!r} vs {v2!r} (relative {abs(v1 - v2) / max(v1, v2):.3g}); nodes {rows}, perm {case['perm']}, "
+                      f"move {case.get('axis')}, {case.get('theta')}, {case.get('offset')}")
+    if (len(rows) + len(case["perm"])) % 4 == 0:
+        f2 = float(np.asarray(ctx.lib("twin/extract_feature[volume]", lambda: extract_feature(t2).get("volume"))).reshape(-1)[0])
+        ctx.check(abs(f2 - v1) <= tol, "volume/feature-front-end-unchanged", lambda: f"{f2!r} vs {v1!r}")
+
+
 SUBCHECKS = [
     Sub("invariance", case_strategy, run_case, quick=3000, thorough=40000, shards_quick=8,
         required={"kind:rigid": 150, "kind:renumber": 80, "kind:scale": 80, "furcation": 300}),
+    Sub("volume_mc", volume_mc_strategy, run_volume_mc, quick=32, thorough=480, shards_quick=8,
+        required={"siblings-reordered": 8, "daughter-cones-overlap>1%": 8}),
 ]
